@@ -100,6 +100,101 @@ def _refactor(mid, split, expect, edits, note=""):
     return M(mid, p, o, n, expect, edits=edits, note=note)
 
 
+# ---- the refactor of seeded change C16-I: from_string's if/elif kind dispatch turned into a module-level table of
+#      (prefix, class, constraint, description) rows looked up by a for/else loop (or next() over a generator), the
+#      alleged-prefix handling into a helper driven by a second table.  Three edits applied together: tables + helper in
+#      front of from_string, the prefix block, the dispatch chain.  The if-chain of /repo is generated from the same data.
+_KINDS = [
+    ("URI:CHK:", "CHKFileURI", None, None),
+    ("URI:CHK-Verifier:", "CHKFileVerifierURI", None, None),
+    ("URI:LIT:", "LiteralFileURI", None, None),
+    ("URI:SSK:", "WriteableSSKFileURI", "W", "URI:SSK file writecap"),
+    ("URI:SSK-RO:", "ReadonlySSKFileURI", "M", "URI:SSK-RO readcap to a mutable file"),
+    ("URI:SSK-Verifier:", "SSKVerifierURI", None, None),
+    ("URI:MDMF:", "WriteableMDMFFileURI", "W", "URI:MDMF file writecap"),
+    ("URI:MDMF-RO:", "ReadonlyMDMFFileURI", "M", "URI:MDMF-RO readcap to a mutable file"),
+    ("URI:MDMF-Verifier:", "MDMFVerifierURI", None, None),
+    ("URI:DIR2:", "DirectoryURI", "W", "URI:DIR2 directory writecap"),
+    ("URI:DIR2-RO:", "ReadonlyDirectoryURI", "M", "URI:DIR2-RO readcap to a mutable directory"),
+    ("URI:DIR2-Verifier:", "DirectoryURIVerifier", None, None),
+    ("URI:DIR2-CHK:", "ImmutableDirectoryURI", None, None),
+    ("URI:DIR2-CHK-Verifier:", "ImmutableDirectoryURIVerifier", None, None),
+    ("URI:DIR2-LIT:", "LiteralDirectoryURI", None, None),
+    ("URI:DIR2-MDMF:", "MDMFDirectoryURI", "W", "URI:DIR2-MDMF directory writecap"),
+    ("URI:DIR2-MDMF-RO:", "ReadonlyMDMFDirectoryURI", "M", "URI:DIR2-MDMF-RO readcap to a mutable directory"),
+    ("URI:DIR2-MDMF-Verifier:", "MDMFDirectoryURIVerifier", None, None),
+]
+_FLAG = {"W": "can_be_writeable", "M": "can_be_mutable"}
+
+
+def _fs_dispatch_chain():
+    out = ["\n    error = None\n    try:\n"]
+    for i, (pfx, k, gate, what) in enumerate(_KINDS):
+        out.append("        %s s.startswith(b'%s'):\n" % ("elif" if i else "if", pfx))
+        if gate is None:
+            out.append("            return %s.init_from_string(s)\n" % k)
+        else:
+            out.append("            if %s:\n                return %s.init_from_string(s)\n            kind = \"%s\"\n" % (_FLAG[gate], k, what))
+    out.append("        elif s.startswith(b'x-tahoe-future-test-writeable:') and not can_be_writeable:\n"
+               "            # For testing how future writeable caps would behave in read-only contexts.\n"
+               "            kind = \"x-tahoe-future-test-writeable: testing cap\"\n"
+               "        elif s.startswith(b'x-tahoe-future-test-mutable:') and not can_be_mutable:\n"
+               "            # For testing how future mutable readcaps would behave in immutable contexts.\n"
+               "            kind = \"x-tahoe-future-test-mutable: testing cap\"\n"
+               "        else:\n            return UnknownURI(u)\n\n"
+               "        # We fell through because a constraint was not met.\n        # Prefer to report the most specific constraint.\n"
+               "        if not can_be_mutable:\n            error = MustBeDeepImmutableError(kind + \" used in an immutable context\", name)\n"
+               "        else:\n            error = MustBeReadonlyError(kind + \" used in a read-only context\", name)\n\n"
+               "    except BadURIError as e:\n        error = e\n\n    return UnknownURI(u, error=error)\n\ndef is_uri(s):\n")
+    return "".join(out)
+
+
+FS_DISPATCH_CHAIN = _fs_dispatch_chain()
+TBL_STRIP_LOOP = ("    for (prefix, can_be_mutable, can_be_writeable) in _ALLEGED_PREFIXES:\n        if s.startswith(prefix):\n"
+                  "            return (s[len(prefix):], can_be_mutable and not deep_immutable, can_be_writeable and not deep_immutable)\n"
+                  "    return (s, not deep_immutable, not deep_immutable)\n\n")
+TBL_STRIP_ALL = ("    can_be_mutable = can_be_writeable = not deep_immutable\n"
+                 "    for (prefix, mutable_ok, writeable_ok) in _ALLEGED_PREFIXES:\n        if s.startswith(prefix):\n"
+                 "            s = s[len(prefix):]\n            can_be_mutable = can_be_mutable and mutable_ok\n"
+                 "            can_be_writeable = can_be_writeable and writeable_ok\n"
+                 "    return (s, can_be_mutable, can_be_writeable)\n\n")
+TBL_PARSE = ("        try:\n            return cls.init_from_string(s)\n"
+             "        except BadURIError as e:\n            return UnknownURI(u, error=e)\n\n")
+
+
+def _table_refactor(mid, expect, rows=None, lookup="loop", strip=TBL_STRIP_LOOP, parse=TBL_PARSE, note=""):
+    tbl = "_WRITEABLE = \"writeable\"\n_MUTABLE = \"mutable\"\n\n_KNOWN_CAPS = (\n"
+    for (pfx, k, gate, what) in (rows or _KINDS):
+        tbl += "    (b'%s', %s, %s, %s),\n" % (pfx, k, {"W": "_WRITEABLE", "M": "_MUTABLE", None: "None"}[gate],
+                                              ("\"%s\"" % what) if what else "None")
+    tbl += ("    (b'x-tahoe-future-test-writeable:', None, _WRITEABLE, \"x-tahoe-future-test-writeable: testing cap\"),\n"
+            "    (b'x-tahoe-future-test-mutable:', None, _MUTABLE, \"x-tahoe-future-test-mutable: testing cap\"),\n)\n\n"
+            "_ALLEGED_PREFIXES = (\n    # prefix,                  can be mutable, can be writeable\n"
+            "    (ALLEGED_IMMUTABLE_PREFIX, False,          False),\n    (ALLEGED_READONLY_PREFIX,  True,           False),\n)\n\n"
+            "def _strip_alleged_prefix(s, deep_immutable):\n" + strip + "\n")
+    prefix_new = ("    (s, can_be_mutable, can_be_writeable) = _strip_alleged_prefix(u, deep_immutable)\n"
+                  "    allowed = {\n        None: True,\n        _WRITEABLE: can_be_writeable,\n        _MUTABLE: can_be_mutable,\n    }\n")
+    if lookup == "loop":
+        body = ("\n    for (prefix, cls, requires, kind) in _KNOWN_CAPS:\n        if s.startswith(prefix):\n            break\n"
+                "    else:\n        return UnknownURI(u)\n\n")
+    else:
+        body = ("\n    row = next((r for r in _KNOWN_CAPS if s.startswith(r[0])), None)\n    if row is None:\n"
+                "        return UnknownURI(u)\n    (prefix, cls, requires, kind) = row\n\n")
+    body += ("    if allowed[requires]:\n        if cls is None:\n            # a testing cap in a context that does not constrain it\n"
+             "            return UnknownURI(u)\n" + parse +
+             "    # A constraint was not met.\n    # Prefer to report the most specific constraint.\n    if not can_be_mutable:\n"
+             "        error = MustBeDeepImmutableError(kind + \" used in an immutable context\", name)\n    else:\n"
+             "        error = MustBeReadonlyError(kind + \" used in a read-only context\", name)\n    return UnknownURI(u, error=error)\n"
+             "\ndef is_uri(s):\n")
+    return M(mid, U, FS_DEF, tbl + FS_DEF, expect, note=note,
+             edits=[(U, FS_PREFIX_OLD, prefix_new), (U, FS_DISPATCH_CHAIN, body)])
+
+
+_ROWS_NO_DIR2_LIT = [r_ for r_ in _KINDS if r_[1] != "LiteralDirectoryURI"]
+_ROWS_MDMF_RO_PASTED = [(p_, "ReadonlySSKFileURI" if k_ == "ReadonlyMDMFFileURI" else k_, g_, w_) for (p_, k_, g_, w_) in _KINDS]
+_ROWS_CHK_SHORT = [("URI:CHK" if k_ == "CHKFileURI" else p_, k_, g_, w_) for (p_, k_, g_, w_) in _KINDS]
+
+
 MUTANTS = [
     # ---- C15.1 start anchor / whole parameter
     M("lit-no-caret", U, "STRING_RE=re.compile(b'^URI:LIT:'+", "STRING_RE=re.compile(b'URI:LIT:'+", "C15.1"),
@@ -378,6 +473,24 @@ MUTANTS = [
       "    for alleged in (b'', ALLEGED_READONLY_PREFIX, ALLEGED_IMMUTABLE_PREFIX):\n"
       "        if s.startswith(alleged + b'URI:LIT:'):\n            return True\n    return False\n", None),
     M("vanish-has-uri-prefix", U, "def has_uri_prefix(s):", "def has_uri_prefixX(s):", "ANALYSIS-ERROR"),
+    # ---- the table-driven shape of from_string (seeded change C16-I): decided by unrolling the loops over the folded tables
+    _table_refactor("benign-from-string-table-driven", None,
+                    note="seeded C16-I with its slip repaired: kind rows in a module-level table, for/else lookup, prefix helper over a table"),
+    _table_refactor("benign-from-string-table-driven-next", None, lookup="next",
+                    note="the same, the row found with next() over a generator expression"),
+    _table_refactor("table-row-dropped", ["C15.6", "C15.9"], rows=_ROWS_NO_DIR2_LIT,
+                    note="table shape: the URI:DIR2-LIT: row was lost, such caps become UnknownURI"),
+    _table_refactor("table-row-class-pasted", ["C15.6", "C15.9"], rows=_ROWS_MDMF_RO_PASTED,
+                    note="table shape: the URI:MDMF-RO: row names ReadonlySSKFileURI"),
+    _table_refactor("table-row-prefix-shadows", ["C15.6", "C15.9"], rows=_ROWS_CHK_SHORT, lookup="next",
+                    note="table shape: the first row's prefix b'URI:CHK' also takes URI:CHK-Verifier: strings"),
+    _table_refactor("table-helper-strips-every-prefix", "C15.11", strip=TBL_STRIP_ALL,
+                    note="table shape: the helper's loop does not stop at the first alleged prefix"),
+    _table_refactor("table-helper-strips-whitespace", "C15.12",
+                    strip=TBL_STRIP_LOOP.replace("return (s[len(prefix):],", "return (s[len(prefix):].strip(),"),
+                    note="table shape: the helper tidies the string behind the alleged prefix"),
+    _table_refactor("table-parse-outside-handler", "C15.6", parse="        return cls.init_from_string(s)\n\n",
+                    note="table shape: the parser call lost its BadURIError handler"),
     # ---- vanished anchor
     M("vanish-from-string", U, "def from_string(u, deep_immutable=False", "def from_stringX(u, deep_immutable=False", "ANALYSIS-ERROR"),
 ]
